@@ -136,6 +136,10 @@ def make_recipes(tier: str, seed: int, infos: dict):
             add(f"P+,EST+,{op}", [T["P+"], T["EST+"], {"op": op}])
         add("NAME,DESC,PATH", [T["NAME"], T["DESC"], T["PATH"]])
         add("COV,NAME", [T["COV"], T["NAME"]])
+    # a model using every function the NM-TRAN expression reader produces: serialisation of expressions
+    for name, steps in (("", []), ("@dict", [{"op": "@dict"}]), ("@code", [{"op": "@code"}]), ("@pickle", [{"op": "@pickle"}]),
+                        ("NAME", [{"f": "set_name", "kw": {"new_name": "other_name"}}])):
+        recipes.append({"base": "syn_funcs", "hist": f"syn_funcs:{name}", "steps": steps})
     seen, out = set(), []
     for r in recipes:
         if r["hist"] not in seen:
@@ -256,6 +260,8 @@ def all_diffs(a, b, path="", classes=(), out=None, limit=12):
         for k in list(a) + [k for k in b if k not in a]:
             if k not in a or k not in b:
                 out.append((f"{path}/{k}", c, "missing key"))
+            elif k == "expression" and a.get("class") == "Assignment" and isinstance(a[k], str) and a[k] != b[k]:
+                out.append((f"{path}/{k}", c, "value funcs=" + ",".join(srepr_functions(a[k]))))
             else:
                 all_diffs(a[k], b[k], f"{path}/{k}", c, out, limit)
         return out
@@ -279,6 +285,16 @@ def all_diffs(a, b, path="", classes=(), out=None, limit=12):
     return out
 
 
+_SREPR_PLAIN = {"Symbol", "Integer", "Float", "Rational", "Add", "Mul", "Pow", "Tuple", "Function"}
+
+
+def srepr_functions(text: str) -> list:
+    """Names of the functions / node types (other than plain arithmetic) in a serialised expression."""
+    import re
+
+    return sorted(set(re.findall(r"([A-Za-z_][A-Za-z_0-9]*)\(", text)) - _SREPR_PLAIN)
+
+
 def diff_records(a, b):
     """The differences as small JSON records, one per distinct (field, enclosing class, kind)."""
     try:
@@ -288,8 +304,14 @@ def diff_records(a, b):
     seen, out = set(), []
     for path, classes, detail in ds:
         field = next((x for x in reversed(path.split("/")) if x and x != "#"), "")
+        funcs = None
+        if detail.startswith("value funcs="):
+            funcs = [f for f in detail[len("value funcs="):].split(",") if f]
+            detail = "x vs y"
         kind = detail if " vs " in detail and detail.split(" vs ")[0] in ("tuple", "list") else ("value" if " vs " in detail else detail)
         rec = {"field": field, "in": classes[-1] if classes else None, "in_ode": "CompartmentalSystem" in classes, "detail": kind}
+        if funcs is not None:
+            rec["funcs"] = funcs
         k = json.dumps(rec, sort_keys=True)
         if k not in seen:
             seen.add(k)
@@ -438,9 +460,17 @@ def round_trips(m) -> list:
             try:
                 back = Expr.deserialize(s.expression.serialize())
                 c = 1 if back == s.expression else 2
-                events.append({"ev": "rt", "via": "dict", "cin": 1, "cout": c, "what": "Expr", "info": {} if c == 1 else {"stage": "compare", "detail": str(s.expression)[:60]}})
+                events.append({"ev": "rt", "via": "dict", "cin": 1, "cout": c, "what": "Expr", "info": {} if c == 1 else {
+                    "stage": "compare", "detail": str(s.expression)[:60],
+                    "diffs": [{"field": "expression", "in": "Expr", "in_ode": False, "detail": "value", "funcs": srepr_functions(s.expression.serialize())}]}})
             except Exception as e:
-                events.append({"ev": "rt", "via": "dict", "cin": 1, "cout": 0, "what": "Expr", "info": {"stage": "serialize", "exception": type(e).__name__}})
+                try:
+                    fs = srepr_functions(s.expression.serialize())
+                except Exception:
+                    fs = []
+                events.append({"ev": "rt", "via": "dict", "cin": 1, "cout": 0, "what": "Expr", "info": {
+                    "stage": "serialize", "exception": type(e).__name__, "message": str(e)[:80],
+                    "diffs": [{"field": "expression", "in": "Expr", "in_ode": False, "detail": "raised", "funcs": fs}]}})
     _trip(m.datainfo, "DataInfo", events)
     for c in m.datainfo:
         _trip(c, "ColumnInfo", events)
@@ -534,7 +564,15 @@ def build_task(rec):
         k = str(ModelHash(m))
     except Exception as e:
         k = "raised:" + type(e).__name__
-    return {"hist": rec["hist"], "pickle": pickle.dumps(m), "rt": rt, "key": k, "trip_ok": trip_ok, "cpu": round(time.process_time() - t0, 2)}
+    try:
+        pk = pickle.dumps(m)
+    except Exception as e:  # the model cannot travel to another process at all
+        fs = sorted({f for st in m.statements if hasattr(st, "expression") for f in srepr_functions(st.expression.serialize())})
+        rt.append({"ev": "rt", "via": "pickle", "cin": 1, "cout": 0, "what": "Model", "info": {
+            "stage": "dumps", "exception": type(e).__name__, "message": str(e)[:100],
+            "diffs": [{"field": "expression", "in": "Model", "in_ode": False, "detail": "raised", "funcs": fs}]}})
+        return {"hist": rec["hist"], "rt": rt, "key": k, "unpicklable": True, "cpu": round(time.process_time() - t0, 2)}
+    return {"hist": rec["hist"], "pickle": pk, "rt": rt, "key": k, "trip_ok": trip_ok, "cpu": round(time.process_time() - t0, 2)}
 
 
 def purge_hash_caches(m):
@@ -622,7 +660,7 @@ def classify(models):
         d = M.digest_df(m.dataset)
         dd.setdefault(d, len(dd) + 1)
         p = cp.of(m.parameters, M._sha(M._params_proj(m.parameters)))
-        r = cr.of(m.random_variables, M._sha(M._rvs_proj(m.random_variables)))
+        r = cr.of(m.random_variables, M._sha(M._rvs_proj(m.random_variables)[0]))
         s = cs.of(m.statements, _stmts_bucket(m.statements))
         e = ce.of(m.execution_steps, M._sha(repr(_norm(m.execution_steps.to_dict()))))
         mm = cm.of(m, (p, r, s, e, dd[d]))
@@ -651,7 +689,7 @@ def _explore(tier: str, box: dict):
         if r.violated:
             raise core.MachineryError(f"Keys.cfg: design-level {r.violated} violated\n" + "\n".join(r.trace[-2:]))
         core.require_actions(r, [("DoKey", "Key"), ("DoRoundTrip", "RoundTrip")], "Keys.cfg")
-        expect = {"order": {"Functional"}, "seed": {"Functional"}, "name": {"Functional", "Independent"}, "drop": {"Injective"}, "trip": {"TripsEqual"}}
+        expect = {"order": {"Functional"}, "seed": {"Functional"}, "conf": {"Functional"}, "name": {"Functional", "Independent"}, "drop": {"Injective"}, "trip": {"TripsEqual"}}
         controls = {}
         for fault, invs in expect.items():
             cb = d / f"bad_{fault}.cfg"
@@ -707,13 +745,23 @@ def _children(pickles, hists, rebuild, d: Path):
     inp = d / "in.pickle"
     inp.write_bytes(pickle.dumps({"models": pickles, "hists": hists, "recipes": rebuild, "replicates": N_REPLICATES[_TIER],
                                   "replicate_base": hists.index(BASES[_TIER][0] + ":")}))
+    # a fourth interpreter with another site configuration (pharmpy.conf): same pickles, keys only
+    cdir = d / "conf"
+    cdir.mkdir()
+    (cdir / "pharmpy.conf").write_text("[pharmpy]\nmissing_data_token=-999\n")
+    inp2 = d / "in_conf.pickle"
+    inp2.write_bytes(pickle.dumps({"models": pickles, "hists": hists, "recipes": [], "replicates": 0, "no_pickle_trips": True}))
     procs = {}
-    for seed in ("0", "1", "random"):
+    for seed in ("0", "1", "random", "conf"):
         env = dict(os.environ)
-        env["PYTHONHASHSEED"] = seed
+        env.pop("PHARMPYCONFIGPATH", None)
+        env["PYTHONHASHSEED"] = "0" if seed == "conf" else seed
         env["PYTHONPATH"] = str(core.VERIF)
+        if seed == "conf":
+            env["PHARMPYCONFIGPATH"] = str(cdir)
+            env.pop("PHARMPYNOCONFIGFILE", None)
         out = d / f"out_{seed}.pickle"
-        p = subprocess.Popen([sys.executable, "-m", "harness.c12_child", str(inp), str(out)], env=env, cwd=str(core.VERIF),
+        p = subprocess.Popen([sys.executable, "-m", "harness.c12_child", str(inp2 if seed == "conf" else inp), str(out)], env=env, cwd=str(core.VERIF),
                              stdout=subprocess.PIPE, stderr=subprocess.PIPE, text=True)
         procs[seed] = (p, out)
     res = {}
@@ -726,6 +774,8 @@ def _children(pickles, hists, rebuild, d: Path):
         if p.returncode != 0 or not out.exists():
             raise core.MachineryError(f"hash process (seed {seed}) failed: {se[-500:]}")
         res[seed] = pickle.loads(out.read_bytes())
+    if res["conf"].get("conf_token") != "-999" or res["0"].get("conf_token") == "-999":
+        raise core.MachineryError(f"the alternative configuration was not picked up: {[(k, r.get('conf_token')) for k, r in res.items()]}")
     return res
 
 
@@ -770,10 +820,12 @@ def main(tier: str, seed: int) -> int:
     th = threading.Thread(target=_explore, args=(tier, box))
     th.start()
     t0 = time.time()
+    syn = M.write_synthetic(core.scratch(f"c12syn{os.getpid()}"))
     infos = {k: M.Info(M.build_base(k)) for k in BASES[tier]}
     recipes = make_recipes(tier, seed, infos)
     built = core.pmap(build_task, recipes, procs=14, chunk=2)
     failed = [b for b in built if "err" in b]
+    unpicklable = [b["hist"] for b in built if b.get("unpicklable")]
     ok = [(r, b) for r, b in zip(recipes, built) if "pickle" in b]
     if len(ok) < 50:
         raise core.MachineryError(f"only {len(ok)} histories could be built: {failed[:3]}")
@@ -785,6 +837,7 @@ def main(tier: str, seed: int) -> int:
     d = core.scratch("c12kids")
     kids = _children([b["pickle"] for r, b in ok], [r["hist"] for r, b in ok], rebuild, d)
     shutil.rmtree(d, ignore_errors=True)
+    shutil.rmtree(syn, ignore_errors=True)
     t_kids = time.time() - t0 - t_built
     probes = {s: k["probe"] for s, k in kids.items()}
     if len(set(probes.values())) < 2:
@@ -812,13 +865,13 @@ def main(tier: str, seed: int) -> int:
         lab = label_of(m, labels)
         owner[(h, lab)] = (m, sig[i])
         base = dict(sig[i], hist=h, label=lab)
-        events.append(dict(base, ev="key", proc="parent", seed="0", k=ok[i][1]["key"]))
+        events.append(dict(base, ev="key", proc="parent", seed="0", conf="default", k=ok[i][1]["key"]))
         for sd, k in kids.items():
-            events.append(dict(base, ev="key", proc=f"child-{sd}", seed=sd, k=k["keys"][i]))
+            events.append(dict(base, ev="key", proc=f"child-{sd}", seed=sd, conf="alt" if sd == "conf" else "default", k=k["keys"][i]))
     for j, (m, (h, proc, sd, key)) in enumerate(zip(rebuilt_models, rebuilt_meta)):
         lab = label_of(m, labels)
         owner[(h, lab)] = (m, sig[len(models) + j])
-        events.append(dict(sig[len(models) + j], ev="key", hist=h, label=lab, proc=proc, seed=sd, k=key))
+        events.append(dict(sig[len(models) + j], ev="key", hist=h, label=lab, proc=proc, seed=sd, conf="default", k=key))
     # one model, many datasets, in sequence (what a resampling tool does): in this process with the candidates dropped,
     # in the fresh interpreters with the candidates kept alive
     base0 = models[hists.index(BASES[tier][0] + ":")]
@@ -831,17 +884,17 @@ def main(tier: str, seed: int) -> int:
     for proc, sd, reps in seqs:
         for i, k, dk, dg in reps:
             cls = ddig.setdefault(dg, 100000 + len(ddig))
-            events.append(dict(sig0, m=cls, d=cls, ev="key", hist=f"{BASES[tier][0]}:@replicate{i}", label=lab0, proc=proc, seed=sd, k=k))
+            events.append(dict(sig0, m=cls, d=cls, ev="key", hist=f"{BASES[tier][0]}:@replicate{i}", label=lab0, proc=proc, seed=sd, conf="default", k=k))
             events.append(dict(sig0, m=cls + 500000, p=0, r=0, s=0, e=0, d=cls, ev="key", hist=f"{BASES[tier][0]}:@replicate{i}/DatasetHash",
-                               label=lab0, proc=proc, seed=sd, k="ds:" + dk))
+                               label=lab0, proc=proc, seed=sd, conf="default", k="ds:" + dk))
             nseq += 2
     if len(ddig) != N_REPLICATES[tier]:
         raise core.MachineryError(f"replicate datasets: {len(ddig)} distinct digests for {N_REPLICATES[tier]} replicates")
     rng.shuffle(events)
     nkey = len(events)
     rts = []
-    for (r, b) in ok:
-        for e in b["rt"]:
+    for r, b in zip(recipes, built):
+        for e in b.get("rt", []):
             e["hist"] = r["hist"]
             rts.append(e)
     for sd, k in kids.items():
@@ -858,7 +911,7 @@ def main(tier: str, seed: int) -> int:
         e = events[x["l"] - 1]
         if e["ev"] == "key":
             o = x["other"]
-            differs = sorted(k for k in ("hist", "label", "proc", "seed") if str(e[k]) != str(o[k]))
+            differs = sorted(k for k in ("hist", "label", "proc", "seed", "conf") if str(e[k]) != str(o.get(k)))
             case = {"kind": "key", "outcome": x["why"], "hist": e["hist"], "other_hist": o["hist"], "differs": differs,
                     "proc": e["proc"], "seed": e["seed"]}
             me, other = owner.get((e["hist"], e["label"])), owner.get((o["hist"], o["label"]))
@@ -895,7 +948,9 @@ def main(tier: str, seed: int) -> int:
                     f"{info.get('exception') or ''} {info.get('message') or ''} {info.get('components') or ''}")
             for dr in info.get("diffs") or [{"field": None, "in": None, "in_ode": False, "detail": None}]:
                 c2 = dict(case, diff_field=dr["field"], diff_in=dr["in"], diff_detail=dr["detail"])
-                v.violation(c2, what + (f"; differs at {dr.get('path')} ({dr['detail']})" if dr["field"] else ""))
+                if dr.get("funcs") is not None:
+                    c2["diff_funcs"] = dr["funcs"]
+                v.violation(c2, what + (f"; differs at {dr.get('path')} ({dr['detail']} {dr.get('funcs') or ''})" if dr["field"] else ""))
 
     th.join()
     if "err" in box:
@@ -930,7 +985,7 @@ def main(tier: str, seed: int) -> int:
         key_events=nkey, replicate_sequence_events=nseq, roundtrip_events=len(rts),
         roundtrip_by_via={via: sum(1 for e in rts if e["via"] == via) for via in ("dict", "json", "code", "pickle", "results")},
         histories_built=len(ok), histories_failed=len(failed), histories_failed_samples=[f"{b['hist']}: {b['err']}" for b in failed[:5]],
-        trips_not_judged_as_keys=sum(1 for j in judged if not j),
+        models_that_cannot_be_pickled=unpicklable[:10], trips_not_judged_as_keys=sum(1 for j in judged if not j),
         histories_rebuilt_in_children=len(rebuilt_models),
         content_classes=len(by_m), classes_reached_by_several_histories=multi_hist, classes_with_several_labels=multi_label,
         classes_hashed_under_three_seeds=multi_seed,
